@@ -161,7 +161,7 @@ def _be_field(t):
         sh = 0
         if p_.k == "op" and p_.a[0] == "<<" and p_.a[2].k == "const" and isinstance(p_.a[2].a[0], int):
             sh, p_ = p_.a[2].a[0], p_.a[1]
-        if not (p_.k == "idx" and p_.a[0].k == "sym" and p_.a[1].k == "const" and isinstance(p_.a[1].a[0], int) and sh % 8 == 0):
+        if not (p_.k == "idx" and p_.a[0].k == "sym" and sh % 8 == 0):
             return None
         if root is None:
             root = p_.a[0]
@@ -169,14 +169,21 @@ def _be_field(t):
             return None
         if sh in got:
             return None
-        got[sh] = p_.a[1].a[0]
+        got[sh] = linearize(p_.a[1]) if not (p_.a[1].k == "const" and isinstance(p_.a[1].a[0], int)) else Lin({}, p_.a[1].a[0])
     n = len(got)
     if n not in (2, 4, 8) or sorted(got) != [8 * i for i in range(n)]:
         return None
     k0 = got[8 * (n - 1)]
-    if any(got[8 * (n - 1 - i)] != k0 + i for i in range(n)) or k0 < 0:
+    if any((got[8 * (n - 1 - i)] - k0).key() != Lin({}, i).key() for i in range(n)) or (k0.is_const() and k0.c < 0):
         return None
-    return T("unpacked", {2: "!H", 4: "!I", 8: "!Q"}[n], T("slice", root, C(k0), C(k0 + n), ty="bytes"), ty="int")
+
+    def lt(l):
+        # same canonical spelling of a position as decode_rules.lin_term
+        t_ = C(l.c)
+        for a_, v_ in sorted(l.co.items(), key=lambda kv: show(kv[0])):
+            t_ = binop("+", t_, a_ if v_ == 1 else binop("*", C(v_), a_))
+        return t_
+    return T("unpacked", {2: "!H", 4: "!I", 8: "!Q"}[n], T("slice", root, lt(k0), lt(k0 + Lin({}, n)), ty="bytes"), ty="int")
 
 
 # ---------------------------------------------------------------------------- atom ranges
